@@ -454,6 +454,40 @@ def carrier_events(ctx, ev, blobs, env, alg):
         try_key('user id bit %d (inside key)' % b, bytes(m))
     try_key('user id extended', uidbody + b' ')
     try_key('user id truncated', uidbody[:-1])
+    # --- the verifying key carries a REVOCATION (an advisory condition): what it reports about the key must not replace the outcome of
+    #     the cryptographic check - an altered document, a flipped signature bit, somebody else's signature stay rejected
+    try:
+        kr = pgpy.PGPKey.from_blob(bytes(k))[0]
+        with warnings.catch_warnings():
+            warnings.simplefilter('ignore')
+            kr |= kr.revoke(kr, created=K.ts(K.T0 + 6000))
+            rpub = pgpy.PGPKey.from_blob(bytes(kr.pubkey))[0]
+            rblob = bytes(rpub)
+            doc0 = b'signed before the key was revoked: %s' % alg.encode()
+            s0 = k.sign(doc0, created=K.ts(K.T0 + 5500))
+            p0 = bytes(s0)
+            other_sig = bytes(pgpy.PGPKey.from_blob(bytes(K.new_key('ed25519', name='Somebody Else')))[0].sign(doc0, created=K.ts(K.T0 + 5500)))
+        rsigner = {'kb': blobs.add(rblob), 'idx': sigs.key_index(rblob, str(k.fingerprint))}
+        body0 = build.read_packets(p0)[0][1]
+        nbits = len(p0) * 8
+        variants = [('unmodified (revoked verifier)', p0, doc0), ('other document (revoked verifier)', p0, doc0 + b'!'), ('signature of another key (revoked verifier)', other_sig, doc0)]
+        for b in sorted(ctx.rng.sample(range((len(p0) - 24) * 8, nbits), 12)) + sorted(ctx.rng.sample(range(16, (len(p0) - 24) * 8), 12)):
+            m = bytearray(p0)
+            m[b // 8] ^= 1 << (b % 8)
+            variants.append(('signature bit %d (revoked verifier)' % b, bytes(m), doc0))
+        for label, pkt_, doc_ in variants:
+            with warnings.catch_warnings():
+                warnings.simplefilter('ignore')
+                try:
+                    so = pgpy.PGPSignature.from_blob(pkt_)
+                    res = 'truthy' if rpub.verify(doc_, so) else 'falsy'
+                except Exception:
+                    res = 'raised'
+            ev.append({'k': 'attempt', 'osig': blobs.add(p0), 'osubj': sigs.subj_doc(blobs, doc0), 'signer': rsigner, 'asig': blobs.add(pkt_) if res != 'raised' else 0,
+                       'asubj': sigs.subj_doc(blobs, doc_), 'vkb': blobs.add(rblob), 'result': res, 'case': 'revoked-verifier', 'mut': label, 'field': 'carrier',
+                       'expect_semantic': not label.startswith('unmodified')})
+    except Exception as ex:
+        ctx.note('revoked verifier (%s): %s' % (alg, repr(ex)[:100]))
     # --- a certification over a user ATTRIBUTE carried inside a key (independent encoder): every bit of the subpacket length, the type and
     #     the image header - version, encoding, the twelve reserved octets - and some image bits; all of them are part of what was signed
     if alg != 'ed25519':
